@@ -1,5 +1,5 @@
 (** Props/C05.v — foreach and while iterate exactly as declared and nest while > foreach > step. *)
-From PV Require Import Engine EngineProofs.
+From PV Require Import Engine EngineProofs Ctl Control CtlProofs.
 Open Scope string_scope.
 Notation RG := (list val -> option string -> option string -> st -> R).
 Notation RP := (string -> option (list string) -> option (list val) -> option string -> option string -> st -> R).
@@ -127,6 +127,16 @@ Theorem C05_error_leaves_all_loops : forall (rg : RG) (rp : RP) w sp n s o s1,
   o <> OOk -> while_iter rg rp w sp n s = (IRaise o, s1).
 Proof. exact while_iter_not_ok. Qed.
 Print Assumptions C05_error_leaves_all_loops.
+
+(** * Tie B: foreach wraps the conditional layer, read from the source
+    ([Step.run_foreach_or_conditional]: foreach when the step has foreach items, else straight to
+    the run/skip/swallow layer) *)
+Theorem C05_source_foreach_or_cond_is_model : forall (rg : RG) (rp : RP) sp k s,
+  gen_run_foreach_or_conditional sp (run_body rp sp) rg (reset_prim sp k)
+    (fun rc => retry_loop rg rp rc sp k) (save_error_prim sp) (foreach_loop rg rp sp k) s
+  = foreach_or_cond rg rp sp k s.
+Proof. exact gen_run_foreach_or_conditional_is_model. Qed.
+Print Assumptions C05_source_foreach_or_cond_is_model.
 
 (** * Non-vacuity: while(max 3, stop when cnt>=4) over foreach [a;b], sleeping 1/2 *)
 Definition lib5 : library :=
